@@ -1,6 +1,6 @@
 (** * Canonical text rendering of results and snapshots (shared by extraction and vm_compute). *)
 From Coq Require Import String Ascii DecimalString.
-From GA Require Import Model.Mutator.
+From GA Require Import Model.Mutator Model.Spec.
 Local Open Scope string_scope.
 
 Definition s_of_N (n : N) : string := NilZero.string_of_uint (N.to_uint n).
@@ -82,14 +82,48 @@ Definition s_ghost (w : world) : string :=
                          | Some ar => (if ub (actx ar) then "UB" else "") ++ (if uflow (actx ar) then "UFLOW" else "")
                          | None => "" end) (arenas w)).
 
-Definition render_step (w : world) (r : result) : string :=
+(** the arena an op acts on (for looking up the kinds of destructed objects in the pre-state) *)
+Definition op_arena (w0 : world) (o : op) : option nat :=
+  match o with
+  | OCollect a _ _ | OStartSweep a _ | ODropArena a => Some a
+  | OEnd | OEndErr | OPanic => match cur w0 with Some (a, _, _) => Some a | None => None end
+  | _ => None
+  end.
+
+(** destructors of untagged harness types are not observable: printed in lower case *)
+Definition s_event_k (c0 : option ctx) (e : event) : string :=
+  match e with
+  | EvDrop x =>
+    let tagged := match c0 with
+                  | Some c => match get c x with Some o => kind_tagged (okind o) | None => true end
+                  | None => true end in
+    (if tagged then "D" else "d") ++ s_of_nat x
+  | EvFree x => "F" ++ s_of_nat x
+  end.
+
+(** spec view per arena (not part of the comparison with the implementation; consumed by the
+    property oracles): strongly reachable ids and weak targets of the root / reachable objects *)
+Fixpoint s_specs (i : nat) (l : list (option arena)) : list string :=
+  match l with
+  | [] => []
+  | Some ar :: t =>
+    ("R" ++ s_of_nat i ++ "=" ++ join "," (map s_of_nat (reach_list (actx ar)))
+     ++ ";W" ++ s_of_nat i ++ "=" ++ join "," (map s_of_nat (wreach_list (actx ar)))) :: s_specs (S i) t
+  | None :: t => s_specs (S i) t
+  end.
+
+Definition render_step (w0 : world) (o : op) (w : world) (r : result) : string :=
+  let c0 := match op_arena w0 o with
+            | Some a => match get_arena w0 a with Some ar => Some (actx ar) | None => None end
+            | None => None end in
   join " " (map s_of_Z (r_out r))
-  ++ " | " ++ join " " (map s_event (r_events r))
+  ++ " | " ++ join " " (map (s_event_k c0) (r_events r))
   ++ " | " ++ join " " (s_arenas 0 (arenas w))
-  ++ " | " ++ s_ghost w.
+  ++ " | " ++ s_ghost w
+  ++ " | " ++ join " " (s_specs 0 (arenas w)).
 
 Fixpoint render_run (w : world) (ops : list op) : list string :=
   match ops with
   | [] => []
-  | o :: t => let '(w1, r) := step w o in render_step w1 r :: render_run w1 t
+  | o :: t => let '(w1, r) := step w o in render_step w o w1 r :: render_run w1 t
   end.
